@@ -14,6 +14,7 @@ def shapes(tier):
     pairs = [((7, 1), (0, 255)), ((0, 65535), (7, 0)), ((6, 1), (6, 1)), ((7, 65535), (7, 65535)), ((0, 0), (0, 0))]
     out += pairs
     out += [((7, 255), (0, 1), (7, 0)), ((0, 1), (6, 65535), (0, 2))]
+    out += [tuple([(0, 65535)] * 17 + [(7, 1)])]        # more than 1 MiB in one file (size is a product of count and length)
     if tier == "thorough":
         out += [(a, b) for a in one for b in one]
     return "{" + ", ".join("<<" + ", ".join("<<%d, %d>>" % x for x in sh) + ">>" for sh in out) + "}"
@@ -37,7 +38,7 @@ def check(pid, tier, replay=None):
         consts = dict(Rels=S(0, 5, 6, 7), FieldClasses=S("zero", "one", "max"), BlobLens=S(0, 1, 2, 255, 256), RecShapes=shapes(tier), EmitOneIn=25)
         n = 8000
     # second slice: routeing filter / private extension at the top of their 16-bit length fields
-    big = dict(Rels=S(0, 7), FieldClasses=S("one"), BlobLens=S(0, 65534, 65535) if tier == "quick" else S(0, 1, 65533, 65534, 65535),
+    big = dict(Rels=S(0, 7), FieldClasses=S("one"), BlobLens=S(0, 1, 2, 65534, 65535) if tier == "quick" else S(0, 1, 2, 32768, 65533, 65534, 65535),   # incl. pairs that sum to 65536
                RecShapes="{<<>>, <<<<7, 1>>>>, <<<<0, 255>>, <<7, 0>>>>}", EmitOneIn=1)
     slices = [dict(name="main", consts=consts, n_beh=n), dict(name="bigblob", consts=big, n_beh=None)]
     return pipe.standard_check(
